@@ -31,6 +31,7 @@ from . import c12
 
 ID = 'C17'
 LEVEL = 'exploration'
+DEBUG_TOGGLE = True  # runner flips the library debug flag every 97 monitored executions
 TECHNIQUE = 'runtime monitoring: differential trace monitor between the environment built by the real YAML factory and one assembled by an independent interpreter of the same dictionary (compose.py); byte/registry inspection of packaged copies and gym ids; input-immutability and repeatability monitors; exception-class monitor over systematic corruptions of every shipped file; factory(name, **kw) vs registry[name] differential on sample inputs'
 LEVEL_TEXT = ('Every shipped file (yaml/, registered_envs/, examples/coin_env.yaml) must be byte-identical to its packaged copy, be the '
               'target of its gym id, validate, build, leave the input dictionary unchanged, build the same environment twice, and '
